@@ -37,6 +37,7 @@ type GhostFn struct {
 type AtCall struct {
 	Callee string
 	Ord    int
+	After  bool // evaluated after the call (result bound to `result`), old() still refers to function entry
 	C      Clause
 	Used   bool
 }
@@ -69,6 +70,7 @@ type FuncContract struct {
 	Lemmas         []Clause // assert-style lemmas proved at function entry under requires
 	AtCalls        []AtCall // assertions attached to call sites of the body
 	NoNilCheck     bool     // nil-dereference obligations are assumed instead of proved (reported)
+	TrustFrame     bool     // the modifies clause is assumed, not checked against the body (reported)
 	AnchorsOnly    bool     // only at-call assertions and postconditions are proved; safety checks and callee preconditions are assumed (reported)
 	DynNoEffect    bool     // calls through function values are assumed not to touch modelled memory (reported)
 	Witness        []string
@@ -322,8 +324,8 @@ func (cs *ContractSet) LoadContractFile(path, pkgPath string) error {
 				return fmt.Errorf("%s:%d: at outside func", path, ln)
 			}
 			f := strings.Fields(rest)
-			if len(f) < 4 || f[0] != "call" || f[2] != "assert" {
-				return fmt.Errorf("%s:%d: expected `at call <callee>#<k> assert <expr>`", path, ln)
+			if len(f) < 4 || f[0] != "call" || (f[2] != "assert" && f[2] != "assert-after") {
+				return fmt.Errorf("%s:%d: expected `at call <callee>#<k> assert|assert-after <expr>`", path, ln)
 			}
 			name := f[1]
 			ord := 1
@@ -331,12 +333,14 @@ func (cs *ContractSet) LoadContractFile(path, pkgPath string) error {
 				ord, _ = strconv.Atoi(name[i+1:])
 				name = name[:i]
 			}
-			src := strings.TrimSpace(rest[strings.Index(rest, " assert ")+8:])
+			after := f[2] == "assert-after"
+			kwd := " " + f[2] + " "
+			src := strings.TrimSpace(rest[strings.Index(rest, kwd)+len(kwd):])
 			e, err := parseExpr(src)
 			if err != nil {
 				return fmt.Errorf("%s:%d: %v", path, ln, err)
 			}
-			cur.AtCalls = append(cur.AtCalls, AtCall{Callee: name, Ord: ord, C: Clause{E: e, Src: src, File: filepath.Base(path), Line: ln}})
+			cur.AtCalls = append(cur.AtCalls, AtCall{Callee: name, Ord: ord, After: after, C: Clause{E: e, Src: src, File: filepath.Base(path), Line: ln}})
 		case "ghostfn":
 			if cur == nil {
 				return fmt.Errorf("%s:%d: ghostfn outside func", path, ln)
@@ -390,6 +394,8 @@ func (cs *ContractSet) LoadContractFile(path, pkgPath string) error {
 			cur.CheckAsserts = true
 		case "nonilcheck":
 			cur.NoNilCheck = true
+		case "trustframe":
+			cur.TrustFrame = true
 		case "anchorsonly":
 			cur.AnchorsOnly = true
 			cur.NoNilCheck = true
